@@ -88,14 +88,23 @@ class Operand:
         mark = 'w::snap(%d, &%s);' % (c.ev, c.snap) if c.snap else 'w::cap(%d);' % c.ev
         return '{ %s%s %s }' % (c.pre, mark, self.expr)
 
+    def ref_text(self):
+        r = self.ref_expr
+        if r is None:
+            return self.expr
+        if isinstance(r, str):
+            return r
+        return ref_expr(r)      # a nested invocation
+
     def ref_block(self):
         c = self.cap
         mark = 'w::snap(%d, &%s);' % (c.ev, c.snap) if c.snap else 'w::cap(%d);' % c.ev
-        return '{ %s%s %s }' % (c.pre_ref, mark, self.ref_expr or self.expr)
+        pre_ref = c.pre_ref if isinstance(c.pre_ref, str) else 'let _n = %s; ' % ref_expr(c.pre_ref)
+        return '{ %s%s %s }' % (pre_ref, mark, self.ref_text())
 
     def ref_src(self):
         if self.cap is None:
-            return self.ref_expr or self.expr
+            return self.ref_text()
         return 'c%d' % self.cap.ev
 
 
@@ -174,6 +183,7 @@ class Ctx:
         self.nest_budget = profile.get('nest_depth', 0)
         self.multi_call = 0      # > 0 while generating the inner chain of a closure that is called per element
         self.no_caps = 0         # > 0 where a block capture would be borrowed by a non-move closure that must be 'static
+        self.async_depth = 0     # > 0 while generating anything evaluated inside an async macro
         self.is_async = False
 
     def ev(self, kind, failable=False, caller=False):
@@ -235,6 +245,21 @@ def new_cap(ctx):
     ctx.evs.append(EvMeta(e, 'Cap', False, ctx.cur_inv, CALLER, ctx.cur_step))
     c = Cap(e)
     ctx.caps.append((c, ctx.cur_inv, ctx.cur_branch, ctx.cur_step))
+    if ctx.nest_budget > 0 and ctx.chance(ctx.p.get('nest_cap', 0.0)):
+        saved = (ctx.cur_inv, ctx.cur_branch, ctx.cur_step)
+        outer_async = ctx.is_async
+        ks = nested_kinds_for(ctx, outer_async, 'cap')
+        # events of the nested invocation are evaluated by the caller, inside the capture
+        ctx.cur_branch = CALLER
+        try:
+            got = gen_nested(ctx, ks) if ks else None
+        except Retry:
+            got = None
+        ctx.cur_inv, ctx.cur_branch, ctx.cur_step = saved
+        if got is not None:
+            ninv, nkind, nty = got
+            c.pre = 'let _n = %s; ' % macro_expr(ninv, nkind)
+            c.pre_ref = ninv
     return c
 
 
@@ -831,7 +856,17 @@ def gen_branch(ctx, inv, index, depth, acts_per_step, same_type=None):
             steps.append(acts)
             types.append(cur)
         return Branch(name, mutable, init, steps, types, index)
-    init = initial_operand(ctx, inv, t0)
+    init = None
+    if same_type is None and ctx.nest_budget > 0 and ctx.chance(ctx.p.get('nest', 0.0)):
+        ks = nested_kinds_for(ctx, False, 'init')
+        got = gen_nested(ctx, ks) if ks else None
+        if got is not None:
+            ninv, nkind, nty = got
+            ctx.cur_inv, ctx.cur_branch, ctx.cur_step = inv.inv, index, 0
+            init = Operand(macro_expr(ninv, nkind), ref_expr=ninv)
+            t0 = nty
+    if init is None:
+        init = initial_operand(ctx, inv, t0)
     cur = t0
     for k in range(depth):
         ctx.cur_step = k
@@ -888,6 +923,65 @@ def coerce_exact_sync(ctx, acts, t, want):
     raise Retry()
 
 
+SYNC_KINDS = ['join', 'join_spawn', 'spawn', 'try_join', 'try_join_spawn', 'try_spawn']
+ASYNC_KINDS = ['join_async', 'join_async_spawn', 'async_spawn', 'try_join_async', 'try_join_async_spawn', 'try_async_spawn']
+
+
+def tuple_to_ty(t):
+    """result type of a nested invocation as a workload type (pairs only)"""
+    if t[0] == 'Tuple':
+        if len(t[1]) != 2:
+            raise Retry()
+        return Pair(t[1][0], t[1][1])
+    if t[0] in ('Opt', 'Res') and isinstance(t[1], tuple) and t[1] and t[1][0] == 'Tuple':
+        return (t[0], tuple_to_ty(t[1]))
+    return t
+
+
+def gen_nested(ctx, kinds):
+    """generate a nested invocation of one of `kinds`; returns (inv, kind name, result type)"""
+    if ctx.nest_budget <= 0:
+        return None
+    kind = ctx.rng.choice(kinds)
+    ctx.nest_budget -= 1
+    saved_p = ctx.p
+    saved_flags = (ctx.in_capture, ctx.multi_call, ctx.no_caps)
+    p = dict(ctx.p)
+    p['branches'] = (1, 2)
+    p['depth'] = (1, 2)
+    p.pop('depth_profile', None)
+    p['acts'] = (0, 2)
+    p['handler'] = 0.3
+    p['names'] = 0.2
+    p['same_typed'] = False
+    ctx.p = p
+    ctx.in_capture, ctx.multi_call, ctx.no_caps = False, 0, 0
+    try:
+        inv = gen_invocation(ctx, kind, kind.startswith('try_'), 'async' in kind)
+        ty = tuple_to_ty(inv.result_ty)
+        if not is_val(ty):
+            raise Retry()
+    finally:
+        ctx.p = saved_p
+        ctx.in_capture, ctx.multi_call, ctx.no_caps = saved_flags
+    return inv, kind, ty
+
+
+def nested_kinds_for(ctx, outer_async, position):
+    """macro kinds that may be nested at `position` ('init' | 'cap' | 'handler') of an outer sync/async macro"""
+    allowed = ctx.p.get('nest_kinds')
+    if not outer_async and ctx.async_depth > 0:
+        # a synchronous macro nested somewhere inside an async one: no thread spawning in there
+        ks = ['join', 'try_join']
+    elif outer_async:
+        ks = ASYNC_KINDS + ['join', 'try_join'] if position == 'init' else ['join', 'try_join']
+    else:
+        ks = SYNC_KINDS
+    if allowed:
+        ks = [k for k in ks if k in allowed]
+    return ks
+
+
 def initial_operand(ctx, inv, t0):
     e = ctx.ev('Init', t0[0] in ('Opt', 'Res'))
     expr = 'w::init::<%s>(%d)' % (rs(t0), e)
@@ -898,6 +992,21 @@ def initial_operand(ctx, inv, t0):
 
 def async_initial(ctx, inv, t0):
     """returns (initial operand, output type X of the future after the prefix, prefix acts)"""
+    if ctx.nest_budget > 0 and ctx.chance(ctx.p.get('nest', 0.0)):
+        ks = nested_kinds_for(ctx, True, 'init')
+        got = gen_nested(ctx, ks) if ks else None
+        if got is not None:
+            ninv, nkind, nty = got
+            ctx.cur_inv, ctx.cur_step = inv.inv, 0
+            op = Operand(macro_expr(ninv, nkind), ref_expr=ninv)
+            if 'async' in nkind:
+                if inv.is_try and nty[0] != 'Res':
+                    return op, Res(nty), [Act('|>', 'method', 'map', [Operand('w::ok')])]
+                return op, nty, []
+            # a synchronous nested macro: lift its value
+            if inv.is_try and nty[0] != 'Res':
+                return op, Res(nty), [Act('->', 'then', operands=[gate_cb(ctx, 'lift_r', failable=True)])]
+            return op, nty, [Act('->', 'then', operands=[gate_cb(ctx, 'lift')])]
     if ctx.chance(ctx.p.get('sync_prefix', 0.35)):
         # synchronous prefix lifted into a future
         init = initial_operand(ctx, inv, t0)
@@ -959,7 +1068,20 @@ def gen_handler(ctx, inv, n_branches):
     ctx.next_ev += 1
     ctx.evs.append(EvMeta(e, 'Handler', failable, inv.inv, CALLER, STEP_HANDLER))
     pos = ctx.rng.randint(0, n_branches) if ctx.chance(p.get('handler_anywhere', 0.3)) else n_branches
-    return Handler(kind, e, pos, fn)
+    h = Handler(kind, e, pos, fn)
+    if ctx.nest_budget > 0 and ctx.chance(p.get('nest_handler', 0.0)):
+        ks = nested_kinds_for(ctx, inv.is_async, 'handler')
+        saved = (ctx.cur_inv, ctx.cur_branch, ctx.cur_step)
+        try:
+            got = gen_nested(ctx, ks) if ks else None
+        except Retry:
+            got = None
+        ctx.cur_inv, ctx.cur_branch, ctx.cur_step = saved
+        if got is not None:
+            ninv, nkind, nty = got
+            h.pre = 'let _n = %s; ' % macro_expr(ninv, nkind)
+            h.pre_ref = ninv
+    return h
 
 
 def result_type(inv):
@@ -1003,6 +1125,20 @@ def gen_invocation(ctx, kind, is_try, is_async, profile_override=None, same_type
             same = Res(TOK)
     saved = (ctx.cur_inv, ctx.cur_branch, ctx.cur_step, ctx.is_async)
     ctx.is_async = is_async
+    if is_async:
+        ctx.async_depth += 1
+    try:
+        _gen_invocation_body(ctx, inv, nb, depths, acts_per_step, same)
+    finally:
+        if is_async:
+            ctx.async_depth -= 1
+    ctx.cur_inv, ctx.cur_branch, ctx.cur_step, ctx.is_async = saved
+    assign_snapshots(ctx, inv)
+    inv.result_ty = result_type(inv)
+    return inv
+
+
+def _gen_invocation_body(ctx, inv, nb, depths, acts_per_step, same):
     for i in range(nb):
         for attempt in range(40):
             mark_ev, mark_evs, mark_caps, mark_inv = ctx.next_ev, len(ctx.evs), len(ctx.caps), len(ctx.invs)
@@ -1019,13 +1155,10 @@ def gen_invocation(ctx, kind, is_try, is_async, profile_override=None, same_type
                 ctx.next_inv = mark_next_inv
                 ctx.multi_call = 0
                 ctx.no_caps = 0
+                ctx.is_async = inv.is_async
         else:
             raise RuntimeError('could not generate branch')
     inv.handler = gen_handler(ctx, inv, nb)
-    ctx.cur_inv, ctx.cur_branch, ctx.cur_step, ctx.is_async = saved
-    assign_snapshots(ctx, inv)
-    inv.result_ty = result_type(inv)
-    return inv
 
 
 def assign_snapshots(ctx, inv):
@@ -1162,7 +1295,8 @@ def ref_expr(inv, top=False):
         L.append('let (%s) = (%s);' % (', '.join('a%d' % i for i in range(n)) + (',' if n == 1 else ''), ', '.join(un) + (',' if n == 1 else '')))
         args = ', '.join('w::dg(&a%d)' % i for i in range(n))
         call = '%s(%d, &[%s])' % (h.body_fn, h.ev, args)
-        body = '{ %s%s }' % (h.pre_ref, call)
+        hpre = h.pre_ref if isinstance(h.pre_ref, str) else 'let _n = %s; ' % ref_expr(h.pre_ref)
+        body = '{ %s%s }' % (hpre, call)
         if A and h.body_fn in ('w::ah', 'w::ah_r'):
             hv = 'w::aseg(&%s, %d, %d, async { let __g = %s; drop((%s)); __g.await }).await' % (ig, CALLER, STEP_HANDLER, body, ', '.join('a%d' % i for i in range(n)) + (',' if n == 1 else ''))
         else:
@@ -1318,6 +1452,8 @@ PROFILES = {
                 ops={'and_then': 3, 'or_else': 2, 'or': 1.5, 'try_fold': 2, 'then': 0.5, 'inspect': 0.5}),
     'handler': dict(branches=(1, 5), depth=(1, 2), acts=(0, 2), wrappers=0.2, wrap_depth=1, captures=0.1, names=0.2, handler=1.0,
                     handler_anywhere=0.5, closures=0.1, turbofish=0.0, sync_prefix=0.3),
+    'nest': dict(branches=(1, 3), depth=(1, 3), acts=(0, 2), wrappers=0.15, wrap_depth=1, captures=0.3, names=0.25, handler=0.5,
+                 closures=0.05, turbofish=0.0, sync_prefix=0.3, nest=0.5, nest_cap=0.35, nest_handler=0.4, nest_depth=3),
     'pos': dict(branches=(1, 5), depth=(1, 4), acts=(0, 1), wrappers=0.0, captures=0.1, names=0.3, handler=0.35, closures=0.0,
                 turbofish=0.0, sync_prefix=0.0, same_typed=True,
                 ops={'map': 3, 'then': 1, 'inspect': 1, 'and_then': 2, 'or_else': 1, 'or': 1, 'map_err': 1, 'filter': 0, 'dot': 0, 'zip': 0,
@@ -1337,9 +1473,60 @@ def gen_program(pid, slice_name, profile, family, seed, same_typed=False, kinds=
     raise RuntimeError('cannot generate program %s/%d' % (slice_name, pid))
 
 
+SPECIAL_SLICES = ('grid',)
+
+
+def gen_grid(pid, family, b, a, seed, steps=2):
+    """b branches x a actions per step, a block capture on every action, in `steps` consecutive steps.
+    Every capture feeds a distinct callback, so any clash of generated binding names changes a value."""
+    rng = random.Random(seed)
+    ctx = Ctx(rng, dict(captures=0.0, closures=0.0, turbofish=0.0))
+    is_async, is_try = family[0] == 'async', family[1]
+    inv = Inv(0, None, is_try, is_async, '')
+    ctx.invs.append(inv)
+    ctx.next_inv = 1
+    ctx.is_async = is_async
+    if is_try:
+        inv.flavor = 'res' if is_async else rng.choice(['opt', 'res'])
+    t = Res(TOK) if (inv.flavor == 'res' or (is_async and not is_try and rng.random() < 0.5)) else Opt(TOK)
+    for i in range(b):
+        ctx.cur_inv, ctx.cur_branch, ctx.cur_step = 0, i, 0
+        e = ctx.ev('Init', True)
+        init = Operand('w::%s::<%s>(%d)' % ('ainit' if is_async else 'init', rs(t), e))
+        if rng.random() < 0.5:
+            init.cap = new_cap(ctx)
+        st = []
+        for k in range(steps):
+            ctx.cur_step = k
+            acts = []
+            for j in range(a):
+                e = ctx.ev('Call', False)
+                op = Operand('w::%s(%d)' % ('am' if is_async else 'm', e), cap=new_cap(ctx))
+                acts.append(Act('|>', 'method', 'map', [op]))
+            if k > 0:
+                acts[0].deferred = True
+            st.append(acts)
+        name = 'n0_%d' % i if rng.random() < 0.2 else None
+        inv.branches.append(Branch(name, False, init, st, [t] * steps, i))
+    inv.handler = None
+    if rng.random() < 0.5:
+        ctx.p = dict(ctx.p, handler=1.0, handler_anywhere=0.5)
+        inv.handler = gen_handler(ctx, inv, b)
+    inv.result_ty = result_type(inv)
+    return Program(pid, 'grid', inv, ctx)
+
+
 def slice_programs(slice_name, tier, master_seed, base_id):
     """the programs of one slice: a systematic coverage skeleton followed by seeded random programs"""
     progs = []
+    if slice_name == 'grid':
+        shapes = [(13, 12), (3, 24), (24, 2)] if tier == 'quick' else [(25, 25), (13, 13), (2, 30), (30, 2), (12, 24), (24, 12)]
+        i = 0
+        for (b, a) in shapes:
+            for fam in FAMILIES:
+                progs.append(gen_grid(base_id + i, fam, b, a, subseed(master_seed, 'grid', b, a, fam)))
+                i += 1
+        return progs
     prof = dict(PROFILES[slice_name])
     n_random = {'quick': 48, 'thorough': 400}[tier]
     i = 0
@@ -1372,6 +1559,27 @@ def slice_programs(slice_name, tier, master_seed, base_id):
                 p = dict(prof)
                 p['depth_profile'] = (lambda d: (lambda rng, nb: list(d)))(dp)
                 add(p, fam, 'sk-%s' % (dp,))
+    if slice_name == 'nest':
+        # skeleton: every macro kind nested once as an initial value, in a capture and in a handler
+        for k in SYNC_KINDS + ASYNC_KINDS:
+            for posn in ('init', 'cap', 'handler'):
+                for fam in fams:
+                    outer_async = fam[0] == 'async'
+                    if 'async' in k and (not outer_async or posn != 'init'):
+                        continue
+                    if outer_async and 'async' not in k and k not in ('join', 'try_join'):
+                        continue
+                    if k.startswith('try_') != fam[1]:
+                        continue   # keep the skeleton small: same try-ness as the outer macro
+                    p = dict(prof)
+                    p['nest_kinds'] = [k]
+                    p['nest'] = 1.0 if posn == 'init' else 0.0
+                    p['nest_cap'] = 1.0 if posn == 'cap' else 0.0
+                    p['nest_handler'] = 1.0 if posn == 'handler' else 0.0
+                    p['handler'] = 1.0 if posn == 'handler' else prof['handler']
+                    p['captures'] = 0.6 if posn == 'cap' else prof['captures']
+                    p['nest_depth'] = 2
+                    add(p, fam, 'sk-%s-%s' % (k, posn))
     if slice_name == 'pos':
         import itertools
         maxn, maxd = (3, 3) if tier == 'quick' else (5, 4)
